@@ -102,7 +102,7 @@ TCP_DESYNC = {'lost', 'extra-after-desync', 'exc:InvalidMessageReceivedException
 EXCUSES = {
     'socket-split-frame': TCP_DESYNC,
     'socket-short-header': TCP_DESYNC,
-    'rtu-split-frame': {'lost', 'exc:IndexError', 'exc:KeyError', 'exc:error', 'justified-misaligned-delivery'},
+    'rtu-split-frame': {'lost', 'exc:IndexError', 'exc:KeyError', 'exc:error', 'exc:ModbusIOException', 'justified-misaligned-delivery'},
     'rtu-one-frame-per-call': {'lost'},
     'binary-split-frame': {'lost'},
     'binary-pipelined-frame-skipped': {'lost'},
@@ -181,13 +181,10 @@ def check(run, case):
 
 
 def _justified(framing, d, stream, o, bounds):
-    """the delivered message is a CRC-valid frame at some offset of the stream"""
-    try:
-        pdu = bytes([o.function_code]) + o.encode()
-    except Exception:  # noqa
-        return False
-    for f in ADU.candidates(framing, d, stream):
-        if f.unit == o.unit_id and bytes(f.pdu) == pdu:
+    """the delivered message is an integrity-valid frame at some offset of the stream (C07's notion)"""
+    from .c07 import same_msg
+    for f in ADU.candidates(framing, d, stream, loose=True):
+        if f.unit == o.unit_id and same_msg(o, f.msg):
             return True
     return False
 
